@@ -48,6 +48,12 @@ def write_if_changed(path, text):
 
 def generate(repo=None, package="oem"):
     repo = repo or os.environ.get("TYPHON_REPO", "/repo")
+    lean_defs, frac_defs, report = translate(lambda rel: open(os.path.join(repo, rel), encoding="utf-8").read())
+    return write_outputs(package, lean_defs, frac_defs, report)
+
+
+def translate(read, SPECS=SPECS, EXPECTED_RET=EXPECTED_RET):
+    """read: relative path -> module text.  Returns (lean definitions, Fraction-dialect definitions, report)."""
     report = {"refused": {}, "functions": {}, "trees": {}, "notes": {}, "auto_helpers": {}}
     known = {}
     lean_defs, frac_defs = [], []
@@ -56,7 +62,7 @@ def generate(repo=None, package="oem"):
         key = name
         try:
             if rel not in parsed:
-                src = open(os.path.join(repo, rel), encoding="utf-8").read()
+                src = read(rel)
                 tree = ast.parse(src)
                 tab = pm.import_table(tree, modname)
                 if any(v == "numpy" or (v or "").startswith("numpy.") for v in tab.values()) and tab.get("np", "numpy") == "numpy":
@@ -80,6 +86,7 @@ def generate(repo=None, package="oem"):
             if helpers:
                 report["auto_helpers"][key] = [f"{h} (expanded in place)" for h in helpers]
             b = pm.Builder(modname, imports, known)
+            b.inline_failed = getattr(fn, "_inline_failed", {})
             params, lets, ret = b.function(fn, shapes)
             if ret.shape != EXPECTED_RET[name]:
                 raise pm.Refusal(f"shape mismatch: returns {ret.shape}, the property expects {EXPECTED_RET[name]}")
@@ -90,6 +97,10 @@ def generate(repo=None, package="oem"):
             report["trees"][key] = "; ".join([f"{nm} = {nd.dump()}" for nm, nd in lets] + [f"return {ret.dump()}"])
         except pm.Refusal as e:
             report["refused"][key] = str(e)
+    return lean_defs, frac_defs, report
+
+
+def write_outputs(package, lean_defs, frac_defs, report):
     hdr = ("import Mathlib.LinearAlgebra.Matrix.NonsingularInverse\nimport Mathlib.Data.Real.Basic\n\n"
            "/-! GENERATED by tools/py2lean/gen_oem.py from typhon/retrieval/oem/common.py and error.py — do not edit.\n"
            "Real-matrix reading of the Python functions: `@` ↦ `*` / `Matrix.mulVec`, `.T` ↦ `Matrix.transpose`,\n"
